@@ -203,6 +203,14 @@ def main(argv):
             if not u["bounded"]:
                 fns.add(f_)
         mine = [o for o in r["obligations"] if attributed(o, prop, u)]
+        # obligations that fail as LISTED findings (known_findings.json) are reported on their
+        # own (KNOWN-FINDING lines, coverage.known_findings_hit) and are not part of the
+        # obligations/discharged pair, which counts what this run claims to have proved
+        listed = [o for o in mine if o["status"] == "FAILURE" and known_match(known, prop, u, o)]
+        for o in listed:
+            known_hits.append((known_match(known, prop, u, o), u, o))
+        mine = [o for o in mine if not any(o is x for x in listed)]
+        row["listed_finding_obligations"] = len(listed)
         row["obligations"] = len(mine)
         row["discharged"] = sum(1 for o in mine if o["status"] == "SUCCESS")
         row["all_obligations_of_unit"] = sum(1 for o in r["obligations"] if o["kind"] not in ("cover", "excluded"))
@@ -226,11 +234,7 @@ def main(argv):
                 row["undecided_after_failure"] += 1
         for o in mine:
             if o["status"] == "FAILURE":
-                k = known_match(known, prop, u, o)
-                if k:
-                    known_hits.append((k, u, o))
-                else:
-                    violations.append((u, o))
+                violations.append((u, o))
         unit_rows.append(row)
     printed = set()
     for k, u, o in known_hits:
